@@ -31,7 +31,7 @@ META = {
     "technique": "TLA+ spec (Nuts) model-checked with TLC; TLC-generated behaviours replayed into both NUTS samplers; recorded traces validated by TLC",
 }
 
-import concurrent.futures, contextlib, json, os, random, re, signal, warnings
+import concurrent.futures, contextlib, json, os, re, signal, warnings
 from fractions import Fraction as Fr
 
 import numpy as np
@@ -377,12 +377,12 @@ def run(ctx):
         orbits = {_okey(c["orb"]): c for c in cases if c["kind"] == "orbit"}
         nuts = [c for c in cases if c["kind"] == "nuts"]
         nrows = _check_rows(ctx, cases)
-        sim = []
+        sim, sim_orbits = [], {}        # same orbit ids, longer tables (T = 15)
         if "sim" in res:
             seen = set()
             for c in res["sim"].cases:
                 if c["kind"] == "orbit":
-                    orbits.setdefault(_okey(c["orb"]), c)
+                    sim_orbits.setdefault(_okey(c["orb"]), c)
                 elif c["kind"] == "nuts":
                     k = json.dumps(c, sort_keys=True)
                     if k not in seen:
@@ -399,12 +399,11 @@ def run(ctx):
             for eps in (1, 1.0, 0.5, 0.25):
                 step_ok[(impl, float(eps))] = check_step_size(ctx, impl, eps) and step_ok.get((impl, float(eps)), True)
         dirmap = _dirmaps(orbits)
-        rnd = random.Random(ctx.seed)
-        todo = nuts + sim
+        todo = [(c, orbits) for c in nuts] + [(c, sim_orbits) for c in sim]
         skipped = 0
         for impl in ("experimental", "legacy"):
-            for c in todo:
-                o = orbits[_okey(c["orb"])]
+            for c, otab in todo:
+                o = otab[_okey(c["orb"])]
                 eps = float(Fr(o["eps"][0], o["eps"][1]))
                 if not step_ok.get((impl, eps), True):
                     skipped += 1
